@@ -671,7 +671,35 @@ func pathCases(r *fw.Run) {
 	}
 }
 
+// FirstCalls is the menu of the fresh-process call-order check.
+func FirstCalls() []fw.Call {
+	var out []fw.Call
+	for _, c := range []struct {
+		n, h int
+		ix   []int64
+	}{{7, 2, []int64{0}}, {13, 1, []int64{3, 0, 12}}, {20, 3, []int64{5}}, {13, 2, []int64{100}}} {
+		c := c
+		out = append(out, fw.Call{Name: fmt.Sprintf("read(N=%d,h=%d,%v)", c.n, c.h, c.ix), F: func() string {
+			lg, _ := tlogx.Build(tlogx.Pattern(0, c.n))
+			msg, _, _ := one(lg, c.n, c.h, c.ix, nil, nil, nil)
+			return msg
+		}})
+		out = append(out, fw.Call{Name: fmt.Sprintf("forged-read(N=%d,h=%d,%v)", c.n, c.h, c.ix), F: func() string {
+			lg, _ := tlogx.Build(tlogx.Pattern(0, c.n))
+			msg, _, _ := one(lg, c.n, c.h, c.ix, []faultT{{Pos: 0, Kind: "flip", Arg: 9}}, nil, nil)
+			return msg
+		}})
+	}
+	out = append(out, fw.Call{Name: "paths", F: func() string {
+		t, e1 := tlog.ParseTilePath("tile/3/1/x001/234.p/5")
+		_, e2 := tlog.ParseTilePath("tile/3/1/1234")
+		return fmt.Sprint(t, e1, e2, tlog.Tile{H: 2, L: 0, N: 1234067, W: 4}.Path(), tlog.TileForIndex(2, 77), len(tlog.NewTiles(2, 5, 21)))
+	}})
+	return out
+}
+
 func Run(r *fw.Run) {
+	defer fw.FirstCallOrders(r, r.ID, FirstCalls(), nil)
 	nmax := r.Pick(48, 100)
 	heights := []int{1, 2, 3}
 	if r.Thorough() {
